@@ -267,7 +267,7 @@ fn separator(style: u64, rng: &mut Rng) -> String
 		4 =>
 		{
 			let w = pk(rng, &COMMENT_WORDS);
-			match rng.below(7)
+			match rng.below(8)
 			{
 				0 => format!("/*{}*/", w),
 				1 => format!("/* {} /* {} */ \n */", w, pk(rng, &COMMENT_WORDS)),
@@ -275,6 +275,7 @@ fn separator(style: u64, rng: &mut Rng) -> String
 				3 => format!("/* {} /*/ {} */ c */", w, pk(rng, &COMMENT_WORDS)),      // `/*/`: an opener followed by a slash, not a closer
 				4 => format!("/*/*/ x*/*/"),
 				5 => format!("/* a *//* {} */", w),
+				6 if rng.chance(1, 6) => { let d = *rng.pick(&[255usize, 256, 257, 300]); format!("{} {} {}", "/*".repeat(d), w, "*/".repeat(d)) },   // deeper than a byte can count
 				_ => format!("/***/"),
 			}
 		},
@@ -498,6 +499,18 @@ fn stream_total(g: &mut Gen, thorough: bool, maxlen: usize, rng: &mut Rng)
 	}
 	// a byte order mark (the tokenizer rejects it: so must the parser), alone and in front of valid text
 	for txt in [&b"\xef\xbb\xbf"[..], b"\xef\xbb\xbfnop;", b"\xef\xbb\xbf a 1;", b"a 1;\xef\xbb\xbf", b"a \xef\xbb\xbf 1;", b"\xef\xbb", b"\xfe\xff a;", b"\xff\xfe a;"] { g.emit(format!("P {}", hex_bytes(txt))); }
+	// every byte value behind / in front of a valid text ending in LF, CRLF, nothing (what the tokenizer rejects, the parser
+	// must not accept); comments nested 255 / 256 / 257 / 1025 deep between two tokens
+	for b in 0..=255u8 { for pre in [&b"a 1;\n"[..], b"a 1;\r\n", b"a 1;", b"push {r0, lr};\r\n"] { let mut v = pre.to_vec(); v.push(b); g.emit(format!("P {}", hex_bytes(&v))); let mut w = vec![b]; w.extend_from_slice(pre); g.emit(format!("P {}", hex_bytes(&w))); } }
+	for d in [255usize, 256, 257, 1025]
+	{
+		let mut v: Vec<u8> = b"ldr r0, ".to_vec();
+		for _ in 0..d { v.extend_from_slice(b"/*"); }
+		v.extend_from_slice(b" x ");
+		for _ in 0..d { v.extend_from_slice(b"*/"); }
+		v.extend_from_slice(b" [r1];");
+		g.emit(format!("P {}", hex_bytes(&v)));
+	}
 	// one Parser object over a long text: state that accumulates per statement / per call / per parenthesis would show
 	{
 		let mut long = String::new();
